@@ -12,6 +12,10 @@
 (* with a fault plan (desc.faults): an invocation that raised is a `callfail` event, the exception leaving the call /  *)
 (* evaluate() a `raise` event (cls = the class the harness functions raise, val = its message naming the function);     *)
 (* an evaluate() that follows evaluate() calls that raised is again  evalbegin | call* | evaluate / callfail raise        *)
+(* construct_dag() blocks: every `begin` / `lbegin` carries `active` (lazy.task_graph() is not None when the call is made),   *)
+(* and `bleft` reports that a with construct_dag() statement was left (exc: through an exception that the refused call, an      *)
+(* evaluate() or the body itself raised; active: task_graph() is not None afterwards); after an exceptional exit the history   *)
+(* goes on with calls outside any block, which the same actions judge                                                          *)
 (* `call` events are the user-function invocations in log order, so an invocation that happens while the     *)
 (* handle is built, or during a second evaluate(), meets a state in which no Call step is enabled.           *)
 EXTENDS PipelineLazy, Json, IOUtils, TLCExt
@@ -29,7 +33,7 @@ Init == tid \in 1..NT /\ l = 1 /\ LazyInit(T.desc)
 FIdxByName(n) == CHOOSE i \in FIdx(d) : d.funcs[i].name = n
 
 (* eager twin *)
-TBegin      == IsEvent("begin") /\ Eager(Begin(Ev.out, Ev.kw, Ev.mode))
+TBegin      == IsEvent("begin") /\ EagerBeginObs(Ev.out, Ev.kw, Ev.mode, Ev.active)
 TReturn     == IsEvent("return") /\ Eager(Return(Ev.val))
 TReturnFull == IsEvent("returnfull") /\ Eager(ReturnFull(SeqToSet(Ev.pairs)))
 (* shared *)
@@ -50,7 +54,7 @@ TRaise      == IsEvent("raise") /\
                ELSE \/ (Ev.cls = "UnusedParametersError" /\ Eager(RaiseUnused))
                     \/ (Ev.cls = "ValueError" /\ Eager(RaiseMissing \/ RaiseOutputSupplied))
 (* lazy *)
-TLBegin     == IsEvent("lbegin") /\ LBegin(Ev.out, Ev.kw, Ev.mode, Ev.dag)
+TLBegin     == IsEvent("lbegin") /\ LBeginObs(Ev.out, Ev.kw, Ev.mode, Ev.dag, Ev.active)
 (* the handle is deferred (cls) and the call log did not grow while it was built (n) *)
 TBuild      == IsEvent("build") /\ Ev.cls = "deferred" /\ Ev.n = 0 /\ Build
 TEvalBegin  == IsEvent("evalbegin") /\ EvalBegin
@@ -61,9 +65,10 @@ TReEvaluateFull == IsEvent("reevaluatefull") /\ Ev.n = 0 /\ ReEvaluateFull(SeqTo
 TGraph      == IsEvent("graph") /\ Graph([nodes |-> SeqToSet(Ev.nodes), edges |-> SeqToSet(Ev.edges)])
 TLEnd       == IsEvent("lend") /\ LEnd
 TLDrop      == IsEvent("ldrop") /\ LDropKeep        \* handle dropped, the construct_dag() block stays open for the next lbegin
+TBLeft      == IsEvent("bleft") /\ BlockLeft(Ev.active)   \* the with statement was left (normally or by an exception)
 
 Next == TBegin \/ TCall \/ TCallFail \/ TReturn \/ TReturnFull \/ TRaise
-        \/ TLBegin \/ TBuild \/ TEvalBegin \/ TEvaluate \/ TEvaluateFull \/ TReEvaluate \/ TReEvaluateFull \/ TGraph \/ TLEnd \/ TLDrop
+        \/ TLBegin \/ TBuild \/ TEvalBegin \/ TEvaluate \/ TEvaluateFull \/ TReEvaluate \/ TReEvaluateFull \/ TGraph \/ TLEnd \/ TLDrop \/ TBLeft
 Spec == Init /\ [][Next]_<<allvars, tid, l>>
 
 Track == IF l > TLCGet(tid) THEN TLCSet(tid, l) ELSE TRUE
